@@ -23,7 +23,8 @@ class SpecFn:
         self.name = name
 
 
-SPEC_FORMS = {"old", "implies", "forall", "exists", "ite", "keyset_has", "keyset_get", "same_record"}
+SPEC_FORMS = {"old", "implies", "forall", "exists", "ite", "keyset_has", "keyset_get", "same_record", "close",
+              "elements"}
 
 
 class Interp:
@@ -819,9 +820,14 @@ class Interp:
         if isinstance(base, ModRef):
             return self.module_attr(base.module, attr)
         if isinstance(base, ExtRef):
-            from .spec import EXT_ENUMS
+            from .spec import EXT_ENUMS, EXT_ENUM_KEYS
             if "ext:" + base.name in EXT_ENUMS and attr in EXT_ENUMS["ext:" + base.name]:
                 return VEnum("ext:" + base.name, attr)
+            if "ext:" + base.name in EXT_ENUM_KEYS and attr[:1].isupper():
+                return VEnum("ext:" + base.name, attr)
+            if base.name in ("datetime.datetime", "datetime") and attr == "min":
+                self.ctx.trusted.add("model:datetime.min is an instant earlier than every timestamp in the data (-10^17 us)")
+                return VTime(-(10 ** 17))
             if base.name == "math" and attr in ("nan", "inf", "pi", "e"):
                 import math as _m
                 if self.ctx.mode == "ieee":
@@ -1275,6 +1281,16 @@ class Interp:
             if name == "keyset_has":
                 return mk(keysets.nsel(h.val.present, keys), "bool")
             return keysets.elem_at(self.engine, self, h.val, keys)
+        if name == "close":
+            a = self.eval(node.args[0], fr)
+            b = self.eval(node.args[1], fr)
+            return self.equal(a, b)
+        if name == "elements":
+            v = self.as_symbolic_iterable(self.eval(node.args[0], fr))
+            if isinstance(v, SymSet):
+                from . import symset
+                return symset.enumeration(self, v)
+            return v
         if name == "same_record":
             a = self.eval(node.args[0], fr)
             b = self.eval(node.args[1], fr)
@@ -1377,7 +1393,10 @@ class Interp:
         fr.nonlocals.update(node.names)
 
     def s_Import(self, node, fr):
-        pass
+        for a in node.names:
+            local = a.asname or a.name.split(".")[0]
+            target = a.name if a.asname else a.name.split(".")[0]
+            fr.locals[local] = self.resolve_import(("module", target))
 
     def s_ImportFrom(self, node, fr):
         base = fr.module._resolve_relative(node.module, node.level)
@@ -1642,6 +1661,9 @@ class Interp:
     s_AsyncFor = s_For
 
     def as_symbolic_iterable(self, v):
+        if isinstance(v, SymSet):
+            from . import symset
+            return symset.enumeration(self, v)
         if isinstance(v, VRef):
             h = self.ctx.deref(v)
             if isinstance(h, HKeySet):
@@ -1649,6 +1671,9 @@ class Interp:
                 return keysets.enumeration(self.engine, self, h.val)
             if isinstance(h, HSymList):
                 return h.seq
+            if isinstance(h, HSymSet):
+                from . import symset
+                return symset.enumeration(self, h.val)
             if isinstance(h, HObj) and h.cls.startswith("ext:") and h.fields.get("__stream__") is not None:
                 return Stream(h.fields["__stream__"], source=v)
         return v
